@@ -19,6 +19,7 @@ from typing import Any, Callable, Dict, List, Optional, Tuple
 
 VERIF_DIR = os.path.dirname(os.path.dirname(os.path.abspath(__file__)))
 REPO = os.environ.get("VERIF_REPO", "/repo")
+OUT_DIR = os.environ.get("VERIF_OUT", VERIF_DIR)  # evidence/ and replays/ go here (mutation runs redirect it)
 MAX_SAMPLES = 8
 NPROC = int(os.environ.get("VERIF_NPROC", "16"))
 
@@ -363,7 +364,7 @@ def run_property(pid: str, tier: str, seed: int, replay: Optional[str] = None) -
                     case = better
             except Exception:
                 pass
-        rdir = os.path.join(VERIF_DIR, "replays", pid)
+        rdir = os.path.join(OUT_DIR, "replays", pid)
         os.makedirs(rdir, exist_ok=True)
         rpath = os.path.join(rdir, digest([sig, case]) + ".json")
         with open(rpath, "w") as fh:
@@ -393,8 +394,8 @@ def run_property(pid: str, tier: str, seed: int, replay: Optional[str] = None) -
         "wall_s": round(wall, 2),
         "violations": len(violations),
     }
-    os.makedirs(os.path.join(VERIF_DIR, "evidence"), exist_ok=True)
-    with open(os.path.join(VERIF_DIR, "evidence", f"{pid}.json"), "w") as fh:
+    os.makedirs(os.path.join(OUT_DIR, "evidence"), exist_ok=True)
+    with open(os.path.join(OUT_DIR, "evidence", f"{pid}.json"), "w") as fh:
         json.dump(ev, fh, indent=1, sort_keys=False, default=repr)
         fh.write("\n")
 
